@@ -33,6 +33,11 @@ META = {
         "C09:mpegts:tracks:not-reported:first-segment-without-data-of:*; fMP4 rendition playlist: no base time, finding "
         "C09:*:client-abort:first-body-without-tracks:rendition-playlist): both signatures are raised only after the cause was verified "
         "on the bytes the transport served",
+        "'the same codec parameters' (fMP4 variants) is judged against the muxer's parameter timeline: the set reported in OnTracks must "
+        "be one the muxer's Track.Codec held between the write of the first unit of the first part / segment of that track the client "
+        "downloaded and the moment the client had the init (whichever came first); an older set (an init that did not follow a "
+        "parameter change) is C09:*:tracks:codec-parameters:*:stale-init; one pair in five has parameter changes of single sets, half of "
+        "them with the client attached after the changes",
         "AbsoluteTime is compared with the NTP written with the unit itself: the harness writes ntp = base + dts/rate for every unit, "
         "so this equals 'NTP of the first unit of the segment + DTS distance' for any anchor; tolerance 1 ms + 2 ticks (+0.32 ms LL)",
     ],
